@@ -337,6 +337,90 @@ def ob_scope(kind: int, depth: int, g: int, l: int, gb: int,
 
 
 # ----------------------------------------------------------------------------
+# the ways a scoped value is handed to swap, and variables that mirror into a partner (sync=)
+# ----------------------------------------------------------------------------
+SYNC_A, SYNC_B = "XONSH_SUBPROC_CMD_RAISE_ERROR", "RAISE_SUBPROC_ERROR"  # real pair: each is declared sync= of the other
+
+
+def _mk_env_sync():
+    import warnings
+
+    warnings.simplefilter("ignore", DeprecationWarning)
+    env = Env({"UPDATE_OS_ENVIRON": False})
+    env._vars = {k: v for k, v in env._vars.items() if k in ("UPDATE_OS_ENVIRON", "__THREAD_LOCAL__", SYNC_A, SYNC_B)}
+    env._d._global.clear()
+    env._d._local.clear()
+    env._detyped = None
+    return env
+
+
+ENV_S = _mk_env_sync()
+FORMS = ["dict", "kwargs", "dict_and_kwargs_same_key", "dict_and_kwargs_other_key"]
+
+
+def ob_forms(var: int, form: int, g: int, l: int, v1: bool, v2: bool, how: int, body: int) -> Optional[str]:
+    """One scope, every calling form of swap (positional mapping, keyword, both) on an unregistered variable and
+    on each member of a real sync= pair: every read path of the variable *and of its partner* is as before on exit."""
+    if not (0 <= var < 3 and 0 <= form < 4 and 0 <= g < 3 and 0 <= l < 2 and 0 <= how < 2 and 0 <= body < 2):
+        raise Skip()
+    env = ENV_S
+    if var == 0:
+        key, partner = KB, KD
+        a, b = ("s1" if v1 else "s2"), ("t1" if v2 else "t2")
+        gval = [None, "g", "h"][_pick([0, 1, 2], g)]
+        lval = [None, "l"][_pick([0, 1], l)]
+        pre = {key: (gval, lval), partner: (gval, None)}
+    else:
+        key, partner = (SYNC_A, SYNC_B) if var == 1 else (SYNC_B, SYNC_A)
+        a, b = v1, v2
+        gval = [None, False, True][_pick([0, 1, 2], g)]
+        lval = [None, True][_pick([0, 1], l)]
+        # a consistent pre-state: the pair holds the same value in each layer (that is what sync= maintains)
+        pre = {key: (gval, lval), partner: (gval, lval)}
+    _reset(env, pre)
+    before = snapshot(env, [key, partner])
+    fm = _pick(FORMS, form)
+    if fm == "dict":
+        cm = env.swap({key: a})
+    elif fm == "kwargs":
+        cm = env.swap(**{key: a})
+    elif fm == "dict_and_kwargs_same_key":
+        cm = env.swap({key: a}, **{key: b})
+    else:
+        cm = env.swap({key: a}, VF_THIRD="z")
+    raised = False
+    inside = None
+    try:
+        with cm:
+            inside = env[key]
+            if body == 1:
+                env["VF_OTHER"] = "kept"  # an assignment to an unrelated variable persists
+            if how == 1:
+                raise ValueError("leave by exception")
+    except ValueError:
+        raised = True
+    if raised != (how == 1):
+        return viol("exception-swallowed", lambda: f"form={fm} how={how}: raised={raised}")
+    if fm != "dict_and_kwargs_same_key" and inside != a:
+        return viol("inside-view", lambda: f"form={fm} key={key}: inside reads {inside!r}, swapped to {a!r}")
+    after = snapshot(env, [key, partner])
+    for k in (key, partner):
+        if after[k] != before[k]:
+            which = ["[]", "in", "get", "iter", "detype", "detype_all"]
+            bad = [w for w, a_, e_ in zip(which, after[k], before[k]) if a_ != e_]
+            tag = "not-restored" if k == key else "partner-not-restored"
+            return viol(f"{tag}-{'+'.join(bad)}", lambda: (
+                f"swap form {fm} of {key}={a!r}{'/' + repr(b) if fm == 'dict_and_kwargs_same_key' else ''} from pre-state {pre}, "
+                f"exit by {'exception' if how else 'return'}: {k} reads {after[k]} after exit, {before[k]} before entry; "
+                f"thread-local layer now {dict(env._d._local)}"))
+    if "VF_THIRD" in env:
+        return viol("not-restored-third", lambda: "keyword-swapped VF_THIRD outlived the scope")
+    if body == 1 and env.get("VF_OTHER") != "kept":
+        return viol("body-assignment-lost", lambda: "assignment to another variable inside the scope did not persist")
+    return None
+
+
+# ----------------------------------------------------------------------------
 # logical threads: a symbolic schedule of Env API calls over two thread-local layers
 # ----------------------------------------------------------------------------
 class _Layers:
@@ -529,6 +613,15 @@ OBLIGATIONS = [
         bounds="three nested scopes on the same key (body ops only at no level, pre-state without thread-local entry)",
         parts={"thorough": _parts_scope(3, False)}, timeout={"thorough": 1500},
         symbolic="finite-domain choices per level",
+    ),
+    Obligation(
+        "swap_forms", ob_forms,
+        bounds="one scope; the scoped value passed as positional mapping / keyword / both for the same key / both for different keys; "
+               "variable = unregistered, or either member of the real sync= pair $XONSH_SUBPROC_CMD_RAISE_ERROR <-> $RAISE_SUBPROC_ERROR "
+               "(the partner's read paths are compared too); pre-state global {unset, 2 values} x thread-local {absent, value}; exit by return / exception",
+        parts={"quick": [dict(var=v, form=f) for v in range(3) for f in range(4)]},
+        timeout={"quick": 120, "thorough": 600},
+        symbolic="pre-state, swapped values, exit kind, body op",
     ),
     Obligation(
         "threads", ob_threads,
